@@ -273,6 +273,17 @@ def register(M):
     B['g_laplace'] = spec_draw('glaplace', 'float', None, 2)
     B['g_uniform'] = spec_draw('guniform', 'float', uniform_facts, 2)
 
+    def b_g_mvn(args, kw, st, node):
+        G = state_of(args[0], st)
+        mean, cov = M.as_arr(st, args[1]), M.as_arr(st, args[2])
+        n = num(args[3])
+        tm, tc = M.matrix_token(mean, st), M.matrix_token(cov, st)
+        TOK = tm.sort()
+        f = F('draw_gmvn', ST, TOK, TOK, z3.IntSort(), z3.IntSort(), z3.IntSort(), z3.RealSort())
+        adv = F('adv_gmvn', ST, TOK, TOK, z3.IntSort(), ST)
+        return (st.alloc(SArr((n, mean.shape[0]), lambda i, j: f(G, tm, tc, Z(n), Z(i), Z(j)), 'float')), ('rngstate', adv(G, tm, tc, Z(n))))
+    B['g_mvn'] = b_g_mvn
+
     def b_rng_permutation(args, kw, st, node):
         s0 = state_of(args[0], st)
         n = num(args[1])
@@ -313,6 +324,18 @@ def register(M):
     E['numpy.random.normal'] = global_draw('normal', 2, (('loc', 'scale'), (0.0, 1.0)))
     E['numpy.random.laplace'] = global_draw('laplace', 2, (('loc', 'scale'), (0.0, 1.0)))
     E['numpy.random.uniform'] = global_draw('uniform', 2, (('low', 'high'), (0.0, 1.0)), facts=uniform_facts)
+
+    def global_method(name):
+        def f(args, kw, st, node):
+            tmp = st.alloc(SGen(global_state(st)))
+            r = ME[('SGen', name)](tmp, st.deref(tmp), args, kw, st, node)
+            set_global(st, st.deref(tmp).state)
+            st.ghost['G_read'] = True
+            return r
+        return f
+    for _nm in ('permutation', 'choice', 'shuffle', 'integers'):
+        E['numpy.random.' + _nm] = global_method(_nm)
+    E['numpy.random.randint'] = global_method('integers')
 
     def np_mvn(args, kw, st, node):
         mean, cov = M.as_arr(st, args[0]), M.as_arr(st, args[1])
